@@ -3,7 +3,7 @@
 export PATH=/opt/veriftools/go1.26.8/bin:$PATH GOTOOLCHAIN=local GOPROXY=off
 pkg=$1; h=$2; e=$3; shift 3
 out=/tmp/g_${e//,/_}_$$.json
-/verif/bin/gosym -repo ${VERIF_REPO:-/repo} -pkg $pkg -harness /verif/harness/$h -prelude /verif/harness/prelude.go.tmpl -entry $e -out $out $GX "$@" 2>&1 | tail -15
+timeout ${T:-300} /verif/bin/gosym -deadline ${DL:-280} -repo ${VERIF_REPO:-/repo} -pkg $pkg -harness /verif/harness/$h -prelude /verif/harness/prelude.go.tmpl -entry $e -out $out $GX "$@" 2>&1 | tail -15
 python3 - $out <<'PY'
 import json,sys
 try:
